@@ -59,6 +59,7 @@ func init() {
 		},
 		Required: []string{"path-hit", "path-miss", "recall-after-mutation", "replace", "remove",
 			"arounds>=2", "afters>=2", "befores>=2", "primaries>=2", "lexicographic-conflict", "no-applicable-method",
+			"remove-entry-first-defined-unspecialised",
 			"around-without-call-next-method", "call-after-remove"},
 		Bound:         bound,
 		Selftest:      selftest,
@@ -149,14 +150,17 @@ var allConfigs = func() map[string]*config {
 	l := func(s ...string) []string { return s }
 	list := []*config{
 		// 1 argument, built-in numeric chain (+ t; a symbol argument reaches only t), small and full
-		{id: "b1s", arity: 1, specs: l("fixnum", "rational", "t"), variants: "pbaw", calls: l("f", "r", "s")},
+		{id: "b1s", arity: 1, specs: l("fixnum", "rational", "u"), variants: "pbaw", calls: l("f", "r", "s")},
 		{id: "b1", arity: 1, specs: l("fixnum", "integer", "rational", "real", "t"), variants: "pbaw", calls: l("f", "B", "r", "d", "s")},
 		// 1 argument, user defclass chain vc1 < vc2 < vc3 < vc4
 		{id: "u1", arity: 1, specs: l("vc1", "vc2", "vc3", "vc4"), variants: "pbaw", calls: l("1", "2", "3", "4"), user: true},
 		// 1 argument, the three kinds of :around body (calls next / does not / asks next-method-p first)
 		{id: "s1", arity: 1, specs: l("fixnum", "integer", "real"), variants: "pwsn", calls: l("f", "B", "d")},
 		// 2 arguments, built-in classes, small and full
-		{id: "b2s", arity: 2, specs: l("fixnum,fixnum", "fixnum,real", "real,fixnum", "t,t"), variants: "paw", calls: l("f,f", "f,d", "d,f")},
+		{id: "b2s", arity: 2, specs: l("fixnum,fixnum", "fixnum,real", "real,fixnum", "u,u"), variants: "paw", calls: l("f,f", "f,d", "d,f")},
+		// the two ways to write a parameter of class t: (x t) and a bare x ("u")
+		{id: "n1", arity: 1, specs: l("fixnum", "t", "u"), variants: "pb", calls: l("f", "s")},
+		{id: "n2", arity: 2, specs: l("fixnum,u", "fixnum,t", "u,u"), variants: "pa", calls: l("f,f", "d,f")},
 		{id: "b2", arity: 2, specs: append(tuples(l("fixnum", "real"), l("fixnum", "real")), "t,t"), variants: "pbaw", calls: l("f,f", "f,d", "d,f", "d,d")},
 		// 2 arguments, user classes
 		{id: "u2", arity: 2, specs: tuples(l("vc1", "vc2"), l("vc1", "vc2")), variants: "paw", calls: l("1,1", "1,2", "2,1", "2,2"), user: true},
@@ -176,9 +180,9 @@ type tierCfg struct {
 
 // tierConfigs lists "id@len". C10_CFGS overrides it (development aid).
 func tierConfigs(tier string) []tierCfg {
-	spec := "b1s@5,u1@5,s1@5,b2s@5,u2@5"
+	spec := "b1s@5,u1@5,s1@5,b2s@5,u2@5,n1@5,n2@5"
 	if tier == engine.Thorough {
-		spec = "b1s@7,u1@7,s1@7,b2s@7,u2@7,b1@6,b2@6"
+		spec = "b1s@7,u1@7,s1@7,b2s@7,u2@7,n1@7,n2@7,b1@6,b2@6"
 	}
 	if v := os.Getenv("C10_CFGS"); v != "" {
 		spec = v
@@ -228,8 +232,12 @@ func (c *config) ops() []string {
 		}
 	}
 	for _, v := range c.slotLetters() {
+		seen := map[string]bool{}
 		for _, s := range c.specs {
-			out = append(out, fmt.Sprintf("r:%c:%s", v, s))
+			if n := normSpec(s); !seen[n] {
+				seen[n] = true
+				out = append(out, fmt.Sprintf("r:%c:%s", v, n))
+			}
 		}
 	}
 	return out
@@ -277,7 +285,11 @@ func specLambdaList(spec string) string {
 		if 0 < i {
 			b.WriteByte(' ')
 		}
-		fmt.Fprintf(&b, "(%s %s)", names[i], s)
+		if s == "u" {
+			b.WriteString(names[i]) // unspecialised parameter
+		} else {
+			fmt.Fprintf(&b, "(%s %s)", names[i], s)
+		}
 	}
 	b.WriteByte(')')
 	return b.String()
@@ -409,6 +421,15 @@ func renderState(st generic.VerifAuxState) string {
 	dump("methods", st.Methods)
 	dump("cache", st.Cache)
 	fmt.Fprintf(&b, "default=%s live=%v\n", labelTag(st.Default), st.DefaultLive)
+	// the specialiser names remove-method will rebuild its key from (Method.Doc of each table entry)
+	dkeys := make([]string, 0, len(st.MethodDocTypes))
+	for k := range st.MethodDocTypes {
+		dkeys = append(dkeys, k)
+	}
+	sort.Strings(dkeys)
+	for _, k := range dkeys {
+		fmt.Fprintf(&b, "doc %s=%s\n", k, st.MethodDocTypes[k])
+	}
 	return b.String()
 }
 
@@ -523,7 +544,7 @@ func exec(spec string) (res engine.Result) {
 			slot := slotOf(o.variant)
 			replaced := m.present(slot, o.spec)
 			m.apply(o)
-			tag := m.t[o.spec][slot].tag(o.spec)
+			tag := m.t[normSpec(o.spec)][slot].tag(o.spec)
 			_, err := lisp.EvalIn(scope, defmethodSrc(name, cfg.arity, o.variant, o.spec, tag))
 			if last {
 				if replaced {
@@ -544,6 +565,9 @@ func exec(spec string) (res engine.Result) {
 		case 'r':
 			if !m.present(slotOf(o.variant), o.spec) {
 				return engine.Result{} // not applicable here
+			}
+			if last && unspecialised(m.firstSrc[normSpec(o.spec)]) {
+				res.Hit("remove-entry-first-defined-unspecialised")
 			}
 			m.apply(o)
 			_, err := lisp.EvalIn(scope, removeSrc(name, o.variant, o.spec))
@@ -643,6 +667,15 @@ func (ck *checker) opError(what string, err *lisp.Err) {
 }
 
 func slotOfTag(tag string) int { return slotOf(tag[0]) }
+
+// tagSpec returns the tuple part of a tag ("p-fixnum_u-3" -> "fixnum_u").
+func tagSpec(tag string) string {
+	tag = baseTag(tag)
+	if i := strings.LastIndexByte(tag, '-'); 2 < i {
+		return tag[2:i]
+	}
+	return ""
+}
 
 func baseTag(entry string) string {
 	entry = strings.TrimSuffix(entry, "-in")
@@ -745,7 +778,8 @@ func (ck *checker) check(how, args string, ex expect, obs callObs, path string, 
 			applicable[t] = true
 		}
 	}
-	ranRemoved, ranInapplicable, ranTwice := map[int]bool{}, map[int]bool{}, map[int]bool{}
+	ranRemoved, ranRemovedU, ranReplaced := map[int]bool{}, map[int]bool{}, map[int]bool{}
+	ranInapplicable, ranTwice := map[int]bool{}, map[int]bool{}
 	count := map[string]int{}
 	for _, e := range obs.trace {
 		if strings.HasSuffix(e, "-out") {
@@ -759,7 +793,14 @@ func (ck *checker) check(how, args string, ex expect, obs callObs, path string, 
 		count[t]++
 		switch {
 		case !inTable[t]:
-			ranRemoved[slotOfTag(t)] = true
+			switch {
+			case ck.m.gone[t] == "replaced":
+				ranReplaced[slotOfTag(t)] = true
+			case ck.m.gone[t] == "removed-u":
+				ranRemovedU[slotOfTag(t)] = true
+			default:
+				ranRemoved[slotOfTag(t)] = true
+			}
 		case !applicable[t]:
 			ranInapplicable[slotOfTag(t)] = true
 		case 1 < count[t]:
@@ -776,7 +817,10 @@ func (ck *checker) check(how, args string, ex expect, obs callObs, path string, 
 			}
 		}
 	}
-	each("ran-removed-or-replaced", ranRemoved, "a method body that is no longer in the method table ran")
+	each("ran-removed", ranRemoved, "a method that was removed by remove-method ran")
+	each("ran-removed(tuple-first-defined-with-unspecialised-parameter)", ranRemovedU,
+		"a method that was removed by remove-method ran (the first defmethod for its specialiser tuple had an unspecialised parameter)")
+	each("ran-replaced", ranReplaced, "the old body of a redefined method ran")
 	each("ran-inapplicable", ranInapplicable, "a method that is not applicable to the arguments ran")
 	each("ran-twice", ranTwice, "a method ran twice")
 	switch ex.kind {
